@@ -106,11 +106,12 @@ PROPS = {
               "Go site with an unchecked assertion found while transcribing was either fixed in /repo or has a Panic arm in the model; the "
               "malformed-input stream compares Ok/Err/Panic outcomes with the real code and reports every real panic.",
         note="Trusted: Coq kernel; the model can only exclude panics in the code it transcribes: reflection glue below the model (util/reflect.go, "
-             "struct-tag parsing) is covered by the streams only. SetNode/GetNode/DeleteNode/UnmarshalSetRequest and gnmidiff entry points are "
-             "covered by the gNMI-layer and gnmidiff checks.",
+             "struct-tag parsing) is covered by the streams only. The panic findings of the gNMI-layer streams (nodeops: SetNode/GetNode/DeleteNode with arbitrary paths and "
+             "TypedValues; setreq: UnmarshalSetRequest/UnmarshalNotifications) are counted here too (their models' no-panic theorems are c10_get_total, c10_no_panic, c12_delete_total under "
+             "C10/C12); the gnmidiff entry points are covered by C22/C23.",
         coq_files=["Tree/Unmarshal", "Tree/UnmarshalProofs", "Path/PathString", "Path/PathStringProofs", "Corr/TreeCorr"],
-        streams=[dict(name="jsondec", n=N(1800, 12000)), dict(name="pathstr", n=N(1600, 12000))],
-        signatures=["panic"],
+        streams=[dict(name="jsondec", n=N(1800, 12000)), dict(name="pathstr", n=N(1600, 12000)), dict(name="nodeops", n=N(900, 8000)), dict(name="setreq", n=N(700, 6000))],
+        signatures=["panic", "setnode/panic", "getnode/panic", "deletenode/panic", "setrequest/panic", "setrequest/best-effort-join-error-panics", "key/setnode-panic", "gnmi/unmarshal-panic"],
         partial="coverage-guided fuzzing (go test -fuzz) is not wired in; generation is structural mutation of rendered documents.",
     ),
     "C26": dict(
